@@ -20,7 +20,22 @@ def fairness_problems(run):
        (judged on the real queue's own fields right after the pop; other FIFOs are unchanged by the pop)"""
     probs = []
     excl = {}
+    clock = 0
+    began = {}
     for ev in run["log"]:
+        if ev[0] == "tick":
+            clock += ev[1]
+        elif ev[0] == "getbegin":
+            began[ev[1]] = clock
+        if ev[0] == "getend" and isinstance(ev[3], str) and ev[1] in began:
+            # "a deferred task ... is started once afterwards": a consumer's look at the queue moves every deferred item whose
+            # delay had already elapsed when the look began into its FIFO - none of those may still be waiting when it ends
+            m_ = re.search(r"deferrals=(\S*)", ev[3])
+            for tok in (m_.group(1).split(",") if m_ and m_.group(1) else []):
+                exp_, item_, key_ = tok.split("/")
+                if int(exp_) + 1 <= began[ev[1]]:
+                    probs.append(f"deferred item {item_} (due at t={exp_}) is still held back after a consumer's look at the queue that "
+                                 f"began at t={began[ev[1]]}: its delay has elapsed but it has not been queued")
         if ev[0] == "put" and ev[7]:
             excl[ev[2]] = ev[3]
         elif ev[0] == "getend" and ev[2] is None:
